@@ -2,6 +2,7 @@ import NemoVerif.Drive.Common
 import NemoVerif.Models.Lifetime
 import NemoVerif.Models.LifetimeOps
 import NemoVerif.Models.LifetimeV
+import NemoVerif.Models.LifetimeAdm
 
 namespace NemoVerif.Drive.C06
 open Lean NemoVerif NemoVerif.Drive NemoVerif.Lifetime
@@ -143,7 +144,10 @@ def handle (op : String) (j : Json) : Except String Json := do
     let extraF ← natList (← j.getObjVal? "newflows")
     let extraA ← natList (← j.getObjVal? "newactions")
     let s := ops.foldl applyOp l.s
-    pure (stateToJson { l with fuids := l.fuids ++ extraF, auids := l.auids ++ extraA } s)
+    -- `adm`: hypothesis of `activation_count_is_live_activators_partial` on this stretch of the real trace;
+    -- `act_pre` / `act_post`: its conclusion (`actCountB`) on the real state before / the replayed state after
+    pure (stateToJson { l with fuids := l.fuids ++ extraF, auids := l.auids ++ extraA } s
+      [("adm", .bool (admFrom l.s ops)), ("act_pre", .bool (actCountB l.s)), ("act_post", .bool (actCountB s))])
   -- abort / finish / endscope: the answer is the REPAIRED recursion (Models/LifetimeV.lean, visited set);
   -- the answer of the as-is recursion travels along under "asis" (the harness checks that it is the same whenever
   -- it is not `fuel`, i.e. whenever the as-is Python recursion terminates)
@@ -174,7 +178,7 @@ def handle (op : String) (j : Json) : Except String Json := do
         | .ignored => Json.mkObj [("r", "ignored")]
         | .reused i => Json.mkObj [("r", "reused"), ("inst", num i)]
         | .create src => Json.mkObj [("r", "create"), ("source", num src)]
-      pure (stateToJson l s [("start", rj)])
+      pure (stateToJson l s [("start", rj), ("act_pre", .bool (actCountB l.s)), ("act_post", .bool (actCountB s))])
   | "label" =>
     let l ← stateOfJson (← j.getObjVal? "st")
     pure (resToJson l (labelRestart l.s (← getNat j "uid")))
